@@ -412,6 +412,15 @@ specification): PERM_BOARD, or named in the moderator string of the parent `clsB
 def groupOpOf (hdrs : List Rec) (q : Req) : Bool :=
   hasBit q.ulevel PERM_BOARD || isUBM q.user (hdrs.getD (q.cls.toNat - 1) Rec.zero).bm
 
+/-- `!(clsBoard.Brdname[0] == 0 || !clsBoard.BrdAttr.HasPerm(BRD_GROUPBOARD))` read on a list of headers: the
+parent `clsBid` is an existing (not vacated) group board.  A parent beyond the headers is all-zero: vacated. -/
+def parentIsClass (hdrs : List Rec) (cls : Int) : Bool :=
+  let r := hdrs.getD (cls.toNat - 1) Rec.zero
+  r.name.headD 0 != 0 && hasBit r.attr BRD_GROUP
+
+/-- does `NewBoard` test the parent before `groupOp`?  (a fact of the source) -/
+def parentChecked : Bool := Gen.NewBoard.parentCheck = "vacatedOrNonGroup"
+
 /-- does `mNewbrd` remove the directory again when `addBoardRecord` fails?  (a fact of the source) -/
 def rmdirOnFail : Bool := Gen.NewBoard.mNewbrdCalls.contains "os.Remove"
 
@@ -440,6 +449,7 @@ def mNewbrd (srt : Sorter) (s : State) (q : Req) : State × M Res :=
 /-- `ptt.NewBoard`. -/
 def newBoard (srt : Sorter) (s : State) (q : Req) : State × M Res :=
   if !validBid q.cls then (s, .ok .invalidBid)
+  else if parentChecked && !parentIsClass s.cache q.cls then (s, .ok .invalidBid)
   else
     let isGroupOp := groupOpOf s.cache q            -- clsBoard = GetBCache(clsBid)
     if !hasBit q.ulevel PERM_BOARD && !isGroupOp then (s, .ok .notPermitted)
@@ -448,6 +458,53 @@ def newBoard (srt : Sorter) (s : State) (q : Req) : State × M Res :=
 def run (srt : Sorter) (s : State) : List Req → State
   | [] => s
   | q :: qs => run srt (newBoard srt s q).1 qs
+
+/-! ### bbs.CreateBoard: the wrapper around ptt.NewBoard
+
+`UUserID.ToRaw` (copy into a UserID_t, `IsValid`), `ptt.InitCurrentUser` (`cmbbs.PasswdLoadUser`: SearchUserRaw +
+the record of that uid in .PASSWDS; the two special ids get constant levels), `copy` of the name into a
+BoardID_t, `ptttype.NewBM` of the moderator ids. -/
+
+structure BbsArgs where
+  userID : Bytes      -- userID UUserID (a string)
+  cls : Int
+  name : Bytes        -- brdname string, any length
+  bclass : Bytes
+  btitle : Bytes
+  bms : List Bytes    -- BMs []UUserID
+  attr : Nat
+  level : Nat
+  chess : Nat
+  isGroup : Bool
+  deriving Repr
+
+inductive BbsRes where
+  | invalidParams           -- bbs.ErrInvalidParams (the caller's id is not a valid user id)
+  | invalidUser             -- ptttype.ErrInvalidUserID (no such user)
+  | inner (r : Res)         -- what ptt.NewBoard answered
+  deriving DecidableEq, Repr
+
+/-- the request `bbs.CreateBoard` hands to `ptt.NewBoard`; `levels` is the UserLevel column of .PASSWDS. -/
+def bbsDerive (users : List Bytes) (levels : List Nat) (a : BbsArgs) : Except BbsRes Req :=
+  let id := copyInto 13 a.userID
+  if !validUserId id then .error .invalidParams
+  else
+    let uid := searchUser users id
+    if !(1 ≤ uid ∧ uid ≤ MAXU) then .error .invalidUser
+    else
+      let recId := users.getD (uid - 1) (zeros 13)
+      let lvl0 := levels.getD (uid - 1) 0
+      let lvl1 := if cstrcmp recId Gen.NewBoard.strGuest = 0 then Gen.NewBoard.guestLevel else lvl0
+      let lvl := if cstrcmp recId Gen.NewBoard.strSysop = 0 then Gen.NewBoard.adminLevel else lvl1
+      .ok { user := recId, ulevel := lvl, uid := (uid : Int), cls := a.cls, name := copyInto 13 a.name,
+            bclass := a.bclass, btitle := a.btitle, bms := some (newBM (a.bms.map (copyInto 13))),
+            attr := a.attr, level := a.level, chess := a.chess, isGroup := a.isGroup }
+
+/-- `bbs.CreateBoard`. -/
+def bbsCreate (srt : Sorter) (s : State) (levels : List Nat) (a : BbsArgs) : State × M BbsRes :=
+  match bbsDerive s.users levels a with
+  | .error e => (s, .ok e)
+  | .ok q => ((newBoard srt s q).1, (newBoard srt s q).2.map .inner)
 
 /-! ### `cache.ReloadBCache` on a `.BRD` of `n` complete records (what every history starts from) -/
 
@@ -474,9 +531,11 @@ def permitted (t : List Rec) (q : Req) : Bool := groupOpOf t q
 /-- the header the creation rules prescribe for a request. -/
 def normalise (users : List Bytes) (q : Req) : Rec := buildRec q (sanitizeBMs users q.bms)
 
-/-- the refusal a request meets, in the order of the checks; `none`: it is accepted. -/
+/-- the refusal a request meets, in the order of the checks (the parent must be in range and an existing group
+board); `none`: it is accepted. -/
 def specDecide (letters : List Nat) (dirs : List Bytes) (t : List Rec) (q : Req) : Option Res :=
   if !validBid q.cls then some .invalidBid
+  else if !parentIsClass t q.cls then some .invalidBid
   else if !permitted t q then some .notPermitted
   else if !validNameSpec q.name then some .invalidName
   else if nameTaken t q.name then some .nameExists
